@@ -27,6 +27,8 @@ pub struct Seed {
     /// AR-PACKAGES inside p10 (a destination that lies below the parent of p1) and a package inside it (an element two levels below pkgs)
     pub p10sub: Element,
     pub p10a: Element,
+    /// a second reference, dangling (reported by check_references before and after it is given another dangling text)
+    pub r2: Element,
 }
 
 const V50: AutosarVersion = AutosarVersion::Autosar_00050;
@@ -47,9 +49,12 @@ pub fn mk_seed() -> Seed {
     l2.set_attribute(AttributeName::L, EnumItem::En).unwrap();
     l2.insert_character_content_item("text", 0).unwrap();
     let c3 = els.create_named_sub_element(ElementName::CanCluster, "c3").unwrap();
+    let r2 = s.get_sub_element(ElementName::FibexElements).unwrap().create_sub_element(ElementName::FibexElementRefConditional).unwrap().create_sub_element(ElementName::FibexElementRef).unwrap();
+    r2.set_attribute(AttributeName::Dest, EnumItem::CanCluster).unwrap();
+    r2.set_character_data("/nope").unwrap();
     let p10sub = p10.create_sub_element(ElementName::ArPackages).unwrap();
     let p10a = p10sub.create_named_sub_element(ElementName::ArPackage, "p10a").unwrap();
-    Seed { model, file, pkgs, p1, p10, els, s, c, r, l2, c3, p10sub, p10a }
+    Seed { model, file, pkgs, p1, p10, els, s, c, r, l2, c3, p10sub, p10a, r2 }
 }
 
 fn doc(pkg: &str) -> String {
@@ -152,6 +157,7 @@ pub fn catalogue() -> Vec<CatOp> {
     op!(v, "p1.set_item_name(p2)", false, |s: &Seed| res(s.p1.set_item_name("p2")));
     op!(v, "r.set_reference_target(c)", false, |s: &Seed| res(s.r.set_reference_target(&s.c)));
     op!(v, "r.set_character_data(/p1/x)", false, |s: &Seed| res(s.r.set_character_data("/p1/x")));
+    op!(v, "r2.set_character_data(/nope2)", false, |s: &Seed| res(s.r2.set_character_data("/nope2")));
     op!(v, "r.remove_character_data", false, |s: &Seed| res(s.r.remove_character_data()));
     op!(v, "c.set_comment", false, |s: &Seed| {
         s.c.set_comment(Some("x".into()));
